@@ -368,6 +368,23 @@ func (fx *Facts) valueFacts(v ssa.Value, want Want, depth int, visiting map[ssa.
 		}
 		s := emptySet()
 		s.add(fx.atom(v, want))
+		// slices.ContainsFunc(xs, pred) == true  ⇒  pred(e) == true for some element e: the facts that make
+		// pred true hold for that element (the element stands in for pred's parameter, the closure's free
+		// variables are the creator's values)
+		if fn := x.Common().StaticCallee(); fn != nil && want == WantTrue && funcPkgPath(fn) == "slices" && strings.HasPrefix(fn.Name(), "ContainsFunc") && len(x.Common().Args) == 2 {
+			if mc, ok := stripConvFacts(x.Common().Args[1]).(*ssa.MakeClosure); ok {
+				pf := mc.Fn.(*ssa.Function)
+				sum := fx.retFacts(pf, 0, WantTrue, depth+1)
+				if !sum.Bottom {
+					elem := &Term{Op: "unk", Name: "some element of " + termOf(x.Common().Args[0]).String()}
+					for _, f := range sum.M {
+						t := substFree(f.T, pf, mc).subst([]*Term{elem})
+						s.add(Fact{t, f.Pol})
+					}
+				}
+			}
+			return s
+		}
 		if fn := x.Common().StaticCallee(); fn != nil && fn.Blocks != nil && fx.depthOK(depth) {
 			sum := fx.retFacts(fn, 0, want, depth+1)
 			s.addAll(substSet(sum, callActuals(x)))
@@ -387,6 +404,16 @@ func (fx *Facts) valueFacts(v ssa.Value, want Want, depth int, visiting map[ssa.
 	s := emptySet()
 	s.add(fx.atom(v, want))
 	return s
+}
+
+func stripConvFacts(v ssa.Value) ssa.Value {
+	for {
+		if ct, ok := v.(*ssa.ChangeType); ok {
+			v = ct.X
+			continue
+		}
+		return v
+	}
 }
 
 func isBool(t types.Type) bool {
